@@ -22,6 +22,7 @@ type DispScenario struct {
 		Route string            `json:"route"`
 		Prof  map[string]string `json:"prof"`
 		Veto  []string          `json:"veto"`
+		Vkind string            `json:"vkind"`
 		Hout  string            `json:"hout"`
 		Dec   string            `json:"dec"`
 		Rdec  string            `json:"rdec"`
@@ -86,7 +87,7 @@ func runDisp(rec *Rec, sc *DispScenario, n int) {
 	c := sc.Cfg
 	rec.SetTrace(sc.ID, map[string]interface{}{
 		"mode": "disp", "kind": c.Kind, "route": c.Route, "hout": c.Hout, "dec": c.Dec, "rdec": c.Rdec,
-		"vetopl": c.Veto[0], "vetostage": c.Veto[1],
+		"vetopl": c.Veto[0], "vetostage": c.Veto[1], "vkind": c.Vkind,
 		"exphooks": flat(sc.Hooks), "expchooks": flat(sc.Chooks),
 		"expinvoked": sc.Invoked, "expreplies": sc.Replies, "expcstat": sc.Cstat, "expdisc": sc.Disc, "expwritten": sc.Written,
 	})
@@ -99,11 +100,19 @@ func runDisp(rec *Rec, sc *DispScenario, n int) {
 	app := NewApp(rec, nil)
 	CurApp = app
 	srvDisc := &DiscCounter{Rec: rec, PName: "sdisc"}
-	srv := erpc.NewPeer(erpc.PeerConfig{}, NewPlug(rec, "srv", "L", c.Prof["L"], vetoFor("L")), srvDisc)
-	srv.PluginContainer().AppendRight(NewPlug(rec, "srv", "R", c.Prof["R"], vetoFor("R")))
-	g := srv.SubRoute("/g", NewPlug(rec, "srv", "G", c.Prof["G"], vetoFor("G")))
-	h := NewPlug(rec, "srv", "H", c.Prof["H"], vetoFor("H"))
+	mk := func(name string) erpc.Plugin {
+		pl := NewPlug(rec, "srv", name, c.Prof[name], vetoFor(name))
+		if c.Vkind == "panic" && c.Veto[0] == name {
+			SetPanic(pl)
+		}
+		return pl
+	}
+	srv := erpc.NewPeer(erpc.PeerConfig{}, mk("L"), srvDisc)
+	srv.PluginContainer().AppendRight(mk("R"))
+	g := srv.SubRoute("/g", mk("G"))
+	h := mk("H")
 	g.RouteCall(new(T), h)
+	g.RouteCall(new(TB), h)
 	g.RoutePush(new(U), h)
 	if c.Route == "unknown" {
 		srv.SetUnknownCall(func(ctx erpc.UnknownCallCtx) (interface{}, *erpc.Status) {
@@ -154,6 +163,9 @@ func runDisp(rec *Rec, sc *DispScenario, n int) {
 	method := "/g/t/call"
 	if c.Kind == "push" {
 		method = "/g/u/push"
+	}
+	if c.Hout == "unpackable" {
+		method = "/g/tb/chan"
 	}
 	if c.Route != "reg" {
 		method = "/nope/nothing"
